@@ -4,7 +4,7 @@
 
 use crate::ctx::{par_run, Acc, Ctx, Evidence};
 use crate::findings::{arm, Armed};
-use crate::libapi::{self, Doc};
+use crate::libapi::{self, Doc, LibOutcome};
 use jsonpath_rust::query::queryable::Queryable;
 use jsonpath_rust::JsonPath;
 use oracle::gen;
@@ -213,6 +213,35 @@ pub fn run(ctx: &Ctx) -> Result<Evidence, String> {
                             }),
                             json!({"path": p}),
                         ),
+                    }
+                }
+            }
+        }
+        // (1b) the paths the library itself reports for the nodes of this document (wildcard and
+        // descendant steps) resolve, through reference, to exactly the nodes they were reported for
+        if locs.len() <= 3000 {
+            for q in ["$..*", "$.*"] {
+                if let LibOutcome::Ok(nodes) = libapi::query_with_path(q, &doc.value) {
+                    let stride = 1 + nodes.len() / 80;
+                    for (a, p) in nodes.iter().step_by(stride) {
+                        acc.evaluations += 1;
+                        match lib_reference(&doc.value, p) {
+                            Ok(Some(b)) if b == *a => acc.count("reported_path_resolved_to_its_node", 1),
+                            other => {
+                                let known = doc.loc_of(*a).and_then(|l| name_trigger(l)).filter(|t| armed.has(t));
+                                match known {
+                                    Some(t) => ctx.add_known(&armed.id_of(t), 1),
+                                    None => report(
+                                        format!("reference({:?}), a path reported by {} for a node of this document, does not return that node: {}", p, q, match &other {
+                                            Ok(None) => "None".to_string(),
+                                            Ok(Some(b)) => format!("the node at {}", doc.loc_of(*b).map(|l| npath::render(l)).unwrap_or_else(|| "<not in document>".into())),
+                                            Err(e) => e.clone(),
+                                        }),
+                                        json!({"path": p, "reported_by": q}),
+                                    ),
+                                }
+                            }
+                        }
                     }
                 }
             }
